@@ -11,6 +11,7 @@ import (
 	"google.golang.org/grpc"
 	"google.golang.org/grpc/codes"
 	grpcstatus "google.golang.org/grpc/status"
+	"verifh/gen"
 	"verifh/sym"
 	"verifh/wire"
 )
@@ -44,7 +45,31 @@ func throughInterceptors(e error) (error, error) {
 // the direct EncodeError/DecodeError transfer; the status code is the attached
 // gRPC code (Unknown otherwise); nil and status errors pass unchanged.
 func H_C20_Interceptors(v *sym.V) {
-	switch v.Choice("case", 7) {
+	switch v.Choice("case", 8) {
+	case 7:
+		// encodings around the usual size thresholds (1, 4, 8 KiB) of transports
+		n := []int{1000, 4100, 8200}[v.Choice("bulk", 3)]
+		pad := make([]byte, n)
+		for i := range pad {
+			pad[i] = 'x'
+		}
+		var e error
+		switch v.Choice("bulkshape", 4) {
+		case 0:
+			e = errors.WithDetail(errors.Wrap(errors.New("x"), "w"), string(pad))
+		case 1:
+			e = errors.WithStack(errors.WithHint(errors.WithStack(&gen.UserPlain{Msg: "u"}), string(pad)))
+		case 2:
+			e = errors.Wrap(errors.Newf("%s", string(pad)), "w")
+		case 3:
+			e = errors.Join(errors.New(string(pad)), errors.WithStack(errors.New("y")))
+		}
+		got, _ := throughInterceptors(e)
+		direct := wire.Hop(e)
+		compareTrees(v, "client-bulk", nil, direct, got)
+		accessorsEqual(v, "client-bulk", direct, got)
+		annotationsEqual(v, "client-bulk", direct, got)
+		return
 	case 6:
 		// an attached code, symbolic (every uint32 but OK), on a few fixed shapes
 		c := v.Uint32("code")
